@@ -102,6 +102,27 @@ def run(fx, rep, tier):
     rule_evalop(fx, rep, cone)
     pC09.rule_fallback(fx, rep) if False else rule_ret(fx, rep)
     rule_root(fx, rep)
+    rule_goargs(fx, rep)
+
+
+def rule_goargs(fx, rep):
+    """C04-GOARGS. "Under any time limit ... returns a move": GUIs send negative clocks once the engine has overstepped its time;
+    a parser that refuses them turns the whole `go` into an unknown command, no search starts and no move is returned. This is
+    C05-GOARGS (the clocks are read by a signed parser), re-reported as a premise of this property."""
+    import core
+    import pC05
+    sub = type(rep)(rep.prop, rep.tier)
+    q = core.QUIET
+    core.QUIET = True
+    try:
+        pC05.rule_goargs(fx, sub)
+    finally:
+        core.QUIET = q
+    for v in sub.violations:
+        rep.violation("C04-GOARGS", v["key"].replace("C05-GOARGS", "C04-GOARGS"), v["msg"], v["site"])
+    rep.obligations += sub.obligations
+    rep.discharged += sub.discharged
+    rep.rule("C04-GOARGS", sub.obligations, 0, not sub.violations, "the clock arguments of go are read by a signed parser (shared with C05-GOARGS)")
 
 
 # ---- C04-EVALOP ------------------------------------------------------------------------------
@@ -330,6 +351,8 @@ AS = "src/engine/search/aspiration.rs"
 TT = "src/engine/transposition_table.rs"
 SM = "src/engine/search/mod.rs"
 MUTANTS = [
+    {"name": "clock arguments of go parsed unsigned (seed C04-13a)", "expect": "C04-GOARGS",
+     "edits": __import__("shared_mutants").edits_from_patch("seeded/C04-13a/patch.diff")},
     {"name": "a missing clock becomes Duration::MAX (seed C04-12a)", "expect": "C04-CONE",
      "edits": __import__("shared_mutants").edits_from_patch("seeded/C04-12a/patch.diff")},
     {"name": "draw by material returned at the root too (seed C04-5a)", "expect": "C04-ROOT",
